@@ -249,6 +249,12 @@ func suiteMap(t *testing.T, cfg cfgT) {
 				if hr.chance(3, 4) {
 					pool = pool[1:]
 				}
+				if hr.chance(1, 3) && len(pool) > 2 {
+					// siblings that carry the same subject but differ in type and subtree (C16-h)
+					a := hr.intn(len(pool) - 1)
+					pool = pool[a : a+2]
+					out.stat("tree.tiny_pool")
+				}
 				unknownNs := hr.chance(1, 6)
 				tr, in := genMapTree(ctx, e, hr, pool, 1+hr.intn(4), unknownNs)
 				tobs := func() (res string) {
